@@ -1,1 +1,24 @@
-From Coq Require Import Reals.
+(* C10_refuted.v — witness, inside the regenerated model, of the known finding
+   "DCM(rpy)/angle-order-differs-from-Quaternion(rpy)": DCM(rpy=[a0,a1,a2]) turns by a0 about z and a2 about x, while
+   Quaternion(rpy=[a0,a1,a2]) turns by a0 about x and a2 about z.  Compiled separately: if the two constructors are made
+   to agree this file stops compiling and the check reports the finding as repaired. *)
+From Coq Require Import Reals List Lra.
+From AhrsLib Require Import Base Rot Atan2.
+From AhrsGen Require Import C10gen_R.
+From AhrsProps Require Import C10_defs C10_ctor C10_euler.
+Import ListNotations.
+Open Scope R_scope.
+
+Theorem C10_rpy_convention_refuted : exists a0 a1 a2 M q,
+  - PI < a0 <= PI /\ - (PI / 2) < a1 < PI / 2 /\ - PI < a2 <= PI /\
+  C10_DCM_rpy_R a0 a1 a2 = Val M /\ C10_rpy_q_R a0 a1 a2 = Val q /\ M <> Rspec q.
+Proof.
+  pose proof PI_RGT_0 as Hpi.
+  exists (PI / 2), 0, 0, (mmul3 (Rz (PI / 2)) (mmul3 (Ry 0) (Rx 0))), (q_of_rpy (PI / 2) 0 0).
+  split; [lra|]. split; [lra|]. split; [lra|].
+  split; [apply DCM_rpy_spec|]. split; [apply rpy_q_spec; lra|].
+  intros E. apply (f_equal (fun l => List.nth 0 l 0)) in E. revert E.
+  unfold Rz, Ry, Rx, q_of_rpy, Rspec, mmul3. cbv zeta. cbv [e List.nth].
+  replace (0 / 2) with 0 by field. rewrite cos_PI2, cos_0, sin_0. lra.
+Qed.
+Print Assumptions C10_rpy_convention_refuted.
